@@ -97,6 +97,27 @@ theorem unreleased_lock_blocks (n : Nat) :
       simpa [List.replicate_succ, run, this] using ih
   exact this s.st hs.2.1 hs.2.2.1 n
 
+/-- **the theorems are about what the driver prints**: every state the replay machine `replayC` (driver op `c10c`, compared
+event by event with the implementation) goes through, for every accepted event list, every consumers_count and every set
+of creatable addresses, satisfies the invariant - in particular every handled frame was handled by the one entry of its
+address, and at most one object per address was created and set up -/
+theorem replayC_states_ok (consumers : Nat) (cs : Nat → Caller × Bool) (cr : Nat → Bool) (evs : List EvC) (r r' : ReplayC)
+    (h : Inv (fun j => (cs j).1) cr r.s.st)
+    (e : evs.foldlM (applyEvC consumers cs cr) r = some r') :
+    Inv (fun j => (cs j).1) cr r'.s.st ∧
+    (∀ f d, (f, d) ∈ r'.s.st.handled → r'.s.st.published (cs f).1.addr = some d) ∧
+    (∀ a d, r'.s.st.published a = some d → r'.s.st.createdFor a = 1 ∧ r'.s.st.setupsFor a = 1) := by
+  have hi : Inv (fun j => (cs j).1) cr r'.s.st := by
+    induction evs generalizing r with
+    | nil => simp [List.foldlM] at e; subst e; exact h
+    | cons ev evs ih =>
+      simp only [List.foldlM_cons, Option.bind_eq_bind] at e
+      cases ha : applyEvC consumers cs cr r ev with
+      | none => rw [ha] at e; simp at e
+      | some r1 => rw [ha] at e; exact ih r1 (inv_applyEvC consumers cs cr r r1 ev h ha) e
+  exact ⟨hi, fun f d hf => hi.holds f d (.inl (hi.handledOk (f, d) hf).1),
+    fun a d ha => ⟨(hi.ids a d ha).2.1, by rw [hi.setups, (hi.ids a d ha).2.1]⟩⟩
+
 /-- non-vacuity: two consumers for address 69; the first takes the lock and awaits the class loading, is cancelled; the
 second creates the device in three moves and handles its frame -/
 example :
